@@ -156,6 +156,31 @@ def generate(rng, tier):
         for shape in ([], [3]):
             cases.append({"line": i2_line(S, None, None, shape, [fmt_v(1)] * gen.shape_size(shape), False, "build"),
                           "meta": {"viol": {"ShapeError"}, "extra": set()}})
+    # Periodic splines whose end rows hold non-finite values (seed C10-r5m2: an error path that ranks the lanes by |first - last| panics
+    # on a NaN difference): NaN in an end row never equals anything, +inf equals +inf, -0.0 equals 0.0 — rejected with ValueError or
+    # built, never a panic; one or several lanes, 3-point and general periodic path, static and dynamic rank
+    for _ in range(gen.N(tier, 60, 600)):
+        n = rng.choice([3, 3, 4, 5])
+        trailing = rng.choice([[], [2], [3], [2, 2], [1], [4]])
+        L = gen.shape_size(trailing)
+        xs = gen.axis_f(rng, n, rng.choice(["unit", "uniform", "random"]))
+        fl = [rng.uniform(-5, 5) for _ in range(n * L)]
+        fl[(n - 1) * L:] = fl[:L]
+        specials = [math.nan, math.inf, -math.inf, 0.0, -0.0, 1e308]
+        for _ in range(rng.choice([1, 1, 2, 3])):
+            j = rng.randrange(L)
+            how = rng.choice(["both", "both", "first", "last", "differ"])
+            v = rng.choice(specials)
+            if how in ("both", "first"):
+                fl[j] = v
+            if how in ("both", "last"):
+                fl[(n - 1) * L + j] = v
+            if how == "differ":
+                fl[(n - 1) * L + j] = fl[j] + rng.choice([1.0, -1e-9, 1e300])
+        equal = all(a == b for a, b in zip(fl[:L], fl[(n - 1) * L:]))
+        dtag = rng.choice(["sta", "dyn"])
+        cases.append({"line": i1_line("F", xs, [n] + trailing, fl, ("spl", rng.random() < 0.5, "per"), "build", dtag=dtag, dlay=rng.choice(gen.LAYS_ND)),
+                      "meta": {"viol": set(), "extra": set() if equal else {"ValueError"}}})
     # integer element types (i64, i32): axes reaching the ends of the type — neighbours whose difference does not fit — valid
     # (strictly increasing) and invalid (ties, reversals) ones; f32 axes one ulp apart
     for S, lo, hi in (("I", -(2 ** 63), 2 ** 63 - 1), ("J", -(2 ** 31), 2 ** 31 - 1)):
